@@ -26,6 +26,18 @@ def judge_runs(prop, shards, out, checks=None, nontrivial=lambda an: an.total_ca
     checks = checks or LO.ALL_CHECKS[prop]
     agg = {}
     for sh in shards:
+        if (not sh.conclusive and sh.returncode == -6 and not sh.timed_out and prop in ("C03", "C04") and "memory allocation of" in sh.stderr
+                and "divan::benchmark::BenchContext::bench_loop_threaded" in sh.stderr and "Vec<T,A>::reserve" in sh.stderr):
+            # the process was brought down by divan's own up-front reservation for `sample_count` samples (an allocation failure aborts,
+            # it cannot be caught): no call was made although the options name at least one round
+            n_done = len([r for r in sh.runs if r.complete])
+            culprit = sh.lines[n_done] if n_done < len(sh.lines) else sh.lines[-1]
+            import re as _re
+            m = _re.search(r"memory allocation of (\d+) bytes failed", sh.stderr)
+            out.violation("%s:aborted_reserving_sample_count" % prop,
+                          "the sample loop aborted the process (memory allocation of %s bytes failed) while reserving room for sample_count samples, before making a single call: %s" % (
+                              m.group(1) if m else "?", culprit), {"engine": engine, "bin": binname, "cfg": culprit, "stderr": sh.stderr[:3000]})
+            continue
         if not sh.conclusive:
             out.inconclusive_shard("engine=%s shard of %d configs: done=%s rc=%s timeout=%s stderr=%s" % (
                 engine, len(sh.lines), sh.done, sh.returncode, sh.timed_out, sh.stderr[-300:].replace("\n", " | ")))
